@@ -134,7 +134,7 @@ fn cfg_from(v: &Value) -> Cfg {
 
 fn cfgs() -> Vec<Cfg> {
     // including prefix and suffix lists of different lengths
-    let affixes: [(&[&str], &[&str]); 4] = [(&[], &[]), (&["<bos>"], &["<eos>"]), (&["<bos>", "<bos>"], &["<eos>"]), (&[], &["<eos>", "<pad>"])];
+    let affixes: [(&[&str], &[&str]); 4] = [(&[], &[]), (&["<bos>"], &["<eos>"]), (&["<bos>", "<pad>"], &["<eos>"]), (&[], &["<eos>", "<pad>"])];
     let mut out = vec![];
     for mean in [true, false] {
         for graphemes in [false, true] {
@@ -582,7 +582,7 @@ fn main() {
     run.bounds.insert("special_tokens".into(), json!(SPECIALS));
     run.bounds.insert(
         "byte_configs".into(),
-        json!({"count": cfgs.len(), "grid": "aggregation {mean,sum} x use_graphemes {f,t} x groups {bytes,code_points} x prefix/suffix {[]/[], [bos]/[eos], [bos,bos]/[eos], []/[eos,pad]}"}),
+        json!({"count": cfgs.len(), "grid": "aggregation {mean,sum} x use_graphemes {f,t} x groups {bytes,code_points} x prefix/suffix {[]/[], [bos]/[eos], [bos,pad]/[eos], []/[eos,pad]}"}),
     );
     run.bounds.insert("part_a".into(), json!({"max_symbols": max_len_a, "strings": n_a, "ignore_special_tokens": [false, true], "also": "single-sequence sparse matrix and padding of every tokenisation"}));
     let per_first = (0..3u32).map(|k| n_pool.pow(k)).sum::<u64>();
